@@ -59,8 +59,16 @@ def run(c):
     p = [Fraction(x) for x in c["p"]]
     a = interned(np.array([float(x) for x in p]))
     a0 = a.copy()
-    r = guarded(lambda: [float(v) for v in adjust_p(a, c["m"])])
-    unmod = bool((a == a0).all())
+    # the form in which the caller holds the p-values: contiguous array, every second element of a buffer, Python list
+    form = (len(p) + sum(x.numerator for x in p)) % 4
+    if form == 1 and len(p) > 0:
+        buf = np.zeros(2 * len(p)); buf[::2] = a0; arg = buf[::2]
+    elif form == 2:
+        arg = [float(x) for x in p]
+    else:
+        arg = a
+    r = guarded(lambda: [float(v) for v in adjust_p(arg, c["m"])])
+    unmod = bool((a == a0).all()) and [float(v) for v in arg] == [float(v) for v in a0]
     rs = np.random.RandomState(c["perm_seed"])
     perm = rs.permutation(len(p))
     r2 = guarded(lambda: [float(v) for v in adjust_p(a0[perm].copy(), c["m"])])
